@@ -34,6 +34,7 @@ def run(rep: Report, tier: str) -> None:
 	rule_a(rep, idx)
 	rule_b(rep, idx)
 	rule_c(rep, idx)
+	rule_d(rep, idx)
 
 
 def rule_a(rep: Report, idx: SourceIndex) -> None:
@@ -198,3 +199,51 @@ def rule_c(rep: Report, idx: SourceIndex) -> None:
 	ok = loop is not None and 'ctor.match_feature(dummy)' in unparse(loop) and any(isinstance(s, ast.Return) for s in ast.walk(loop))
 	r.check(ok, 'first-accepting', f.where, 'resolve no longer returns at the first candidate class whose match_feature accepts the dummy node')
 	r.check('self.__invoker(Node, full_path)' in src, 'dummy-is-plain-node', f.where, 'match_feature is no longer evaluated on a plain Node(full_path) dummy (a typed dummy would make the outcome depend on a previous resolution)')
+
+
+def rule_d(rep: Report, idx: SourceIndex) -> None:
+	"""query results are memoised per path: keys of different queries must not collide, and a key must mention every argument of the query"""
+	r = rep.rule('C10/memo-keys-distinct-and-complete', 'for every class memoising with Memoize.get(key, factory): keys built in different methods have different constant prefixes, and each key interpolates every parameter of its method (else one query answers for another / for another argument)', floor=8)
+	n_sites = 0
+	for rel in idx.all_py(('rogw',)):
+		if rel.startswith(('rogw/tranp/test/', 'rogw/tranp/compatible/')):
+			continue
+		m = idx.mod(rel)
+		for cq, c in m.classes.items():
+			sites = []  # (method, prefix, key node, call)
+			for name, defs in c.methods.items():
+				for f in defs:
+					for n in ast.walk(f.node):
+						if isinstance(n, ast.Call) and isinstance(n.func, ast.Attribute) and n.func.attr == 'get' and 'memo' in unparse(n.func.value) and len(n.args) == 2:
+							k = n.args[0]
+							prefix = None
+							if isinstance(k, ast.JoinedStr) and k.values and isinstance(k.values[0], ast.Constant):
+								prefix = str(k.values[0].value)
+							elif isinstance(k, ast.Constant) and isinstance(k.value, str):
+								prefix = k.value + '\0'
+							elif isinstance(k, ast.Attribute) and k.attr == '__name__':
+								prefix = unparse(k) + '\0'
+							elif isinstance(k, ast.JoinedStr) and k.values and isinstance(k.values[0], ast.FormattedValue):
+								prefix = '{' + unparse(k.values[0].value) + '}'
+							sites.append((f, prefix, k, n))
+			if not sites:
+				continue
+			rep.consulted(rel)
+			for i, (f, prefix, k, n) in enumerate(sites):
+				n_sites += 1
+				key = f'{rel}:{cq}.{f.name}:{unparse(k)[:50]}'
+				if prefix is None:
+					r.undecided(key, (rel, n.lineno), f'memo key `{unparse(k)}` has no constant prefix')
+					continue
+				clash = [g.name for g, p2, _, _ in sites if g.name != f.name and p2 is not None and (p2.startswith(prefix) or prefix.startswith(p2))]
+				# every parameter of the method (besides self/cls) must be interpolated into the key
+				params = [p for p in f.params() if p not in ('self', 'cls')]
+				used = {x.id for x in ast.walk(k) if isinstance(x, ast.Name)}
+				missing = [p for p in params if p not in used]
+				if clash:
+					r.violate(key, (rel, n.lineno), f'{cq}.{f.name} memoises under key `{unparse(k)}`, whose prefix {prefix!r} collides with the key of {clash}: whichever query runs first answers the other one too (results depend on query order)', unparse(n)[:120])
+				elif missing:
+					r.violate(key, (rel, n.lineno), f'{cq}.{f.name} memoises under key `{unparse(k)}`, which does not mention parameter(s) {missing}: the first call answers for every later argument value', unparse(n)[:120])
+				else:
+					r.ok(key, (rel, n.lineno))
+	rep.extra_coverage['memo_sites'] = n_sites
